@@ -196,7 +196,8 @@ namespace cnl {
 
         [[nodiscard]] constexpr auto scan_base(char const* str, bool is_negative, int offset, int length)
         {
-            auto const last{str + length};
+            // length excludes the sign; str does not
+            auto const last{str + offset + length};
             auto const found_radix{std::find(str, last, radix_char)};
             auto const has_radix{found_radix != last};
             auto const post_radix{found_radix + has_radix};
